@@ -58,6 +58,10 @@ pub enum Strat {
     OpenOtherChain { from: u16 },
     /// rows of one layer are solved after the queries to fit both neighbours
     UnboundLayer { layer: u16 },
+    /// like UnboundLayer, and the proof claims more partitions than that layer has rows (the partition
+    /// count is not committed to and may be chosen after the queries): every queried position of the layer
+    /// is mapped to the same leaf index, so the opening cannot be authenticated at all
+    UnboundLayerManyPartitions { layer: u16, over: u8 },
     /// fold one layer with a different challenge; `crafted`: the function is built so that this wrong
     /// challenge makes everything after it low-degree
     WrongAlpha { layer: u16, alpha: [X; 3], crafted: bool },
@@ -74,6 +78,7 @@ impl Strat {
             Strat::SwitchLayer { .. } => "switch-layer",
             Strat::OpenOtherChain { .. } => "open-other-chain",
             Strat::UnboundLayer { .. } => "unbound-layer",
+            Strat::UnboundLayerManyPartitions { .. } => "unbound-layer-many-partitions",
             Strat::WrongAlpha { crafted: true, .. } => "wrong-alpha-crafted",
             Strat::WrongAlpha { .. } => "wrong-alpha",
             Strat::Structure { kind: StructKind::Omit, .. } => "omit-layer",
@@ -136,6 +141,7 @@ fn strat_strategy(fam: Family) -> BoxedStrategy<Strat> {
             // from the first layer on: every opened row belongs to the low-degree chain
             1 => Just(Strat::OpenOtherChain { from: 0 }),
             2 => any::<u16>().prop_map(|layer| Strat::UnboundLayer { layer }),
+            1 => (any::<u16>(), 0u8..4).prop_map(|(layer, over)| Strat::UnboundLayerManyPartitions { layer, over }),
         ]
         .boxed(),
         Family::WrongAlpha => (any::<u16>(), el_strategy(), prop::bool::weighted(0.6))
@@ -321,7 +327,7 @@ where
 
     // ---- strategy, adapted to the schedule ----------------------------------------------------------
     let mut strat = c.strat.clone();
-    let needs_layers = matches!(strat, Strat::OpenOtherChain { .. } | Strat::UnboundLayer { .. } | Strat::WrongAlpha { .. } | Strat::Structure { .. });
+    let needs_layers = matches!(strat, Strat::OpenOtherChain { .. } | Strat::UnboundLayer { .. } | Strat::UnboundLayerManyPartitions { .. } | Strat::WrongAlpha { .. } | Strat::Structure { .. });
     if needs_layers && big_l == 0 {
         obs.label("degraded=no-layers");
         strat = match strat {
@@ -437,6 +443,17 @@ where
             plan.open = OpenMode::Unbound { layer: l };
             obs.label(format!("unbound={}", if l == 0 { "first" } else if l + 1 == big_l { "last" } else { "middle" }));
         },
+        Strat::UnboundLayerManyPartitions { layer, over } => {
+            let l = vf_core::pick_index(*layer, big_l);
+            plan.g = Some(g.clone());
+            plan.switch_at = Some(l + 1);
+            plan.open = OpenMode::Unbound { layer: l };
+            // rows of layer l = layer domain / folding factor; claim 2^(1 + over) times as many partitions,
+            // or (over = 3) the largest count the format can carry without overflowing a usize
+            let rows = s.layer_domain(l) / n;
+            plan.log_partitions = if *over == 3 { 62 } else { (rows.ilog2() as u8) + 1 + *over };
+            obs.label(format!("unbound+partitions={}", if l == 0 { "first" } else if l + 1 == big_l { "last" } else { "middle" }));
+        },
         Strat::WrongAlpha { layer, alpha, .. } => {
             let fld = ref_field::<E>();
             let mut a_ref = [0u128; 3];
@@ -504,7 +521,7 @@ where
             if verdict.legit() {
                 // nothing a verifier could have seen was wrong at these positions
                 obs.label(if verdict.trailing_duplicate { "accepted-legit(trailing-duplicate-ignored)" } else { "accepted-legit" });
-                if std::env::var("VF_FRI_DEBUG").is_ok() && !matches!(strat, Strat::SwitchLayer { .. } | Strat::UnboundLayer { .. } | Strat::OpenOtherChain { .. }) {
+                if std::env::var("VF_FRI_DEBUG").is_ok() && !matches!(strat, Strat::SwitchLayer { .. } | Strat::UnboundLayer { .. } | Strat::UnboundLayerManyPartitions { .. } | Strat::OpenOtherChain { .. }) {
                     eprintln!("DEBUG accepted-legit: {}", describe());
                 }
                 Ok(())
@@ -522,7 +539,13 @@ where
             }
             obs.label(format!("rejected:{stage}:{what}"));
             // (a proof with a duplicated trailing layer may be refused for its shape)
-            if verdict.legit() && !verdict.trailing_duplicate {
+            // (a proof that claims more partitions than a layer has rows cannot be authenticated whatever it
+            // carries: refusing it is right even when the rows happen to equal the committed ones)
+            let many_partitions = matches!(strat, Strat::UnboundLayerManyPartitions { .. });
+            if many_partitions && verdict.legit() {
+                obs.label("many-partitions:rows-equal-committed-ones");
+            }
+            if verdict.legit() && !verdict.trailing_duplicate && !many_partitions {
                 return Err(Fail::new(
                     format!("legit-rejected/{what}"),
                     format!("every opened value, folding step and the remainder are consistent at the queried positions, yet the verifier rejected ({stage}: {what}): {}", describe()),
